@@ -641,3 +641,13 @@ def _grain_namedtuple_table(skip=None):
 
 BENIGN.append({"name": "grain-chain-as-namedtuple-table", "edits": _grain_namedtuple_table()})
 MUTANTS.append({"name": "grain-namedtuple-table-missing-type", "edits": _grain_namedtuple_table("GRAIN_RECOMINE"), "rules": ["R2"]})
+
+
+def _kida_templates(zeta):
+    """two laws kept as class-level text templates keyed by the formula number, filled in with str.format"""
+    return [{"file": K, "old": _KIDA_ARM1, "new": '        if formula in self._templates:\n            rate = self._templates[formula].format(a=a, b=b, c=c)\n        elif formula == 2:\n'},
+            {"file": K, "old": _KIDA_HEAD, "new": '    _templates = {1: "{a} * ' + zeta + '", 4: "{a} * {b} * (0.62 + 0.4767*{c}*sqrt(300.0/Tgas))"}\n\n' + _KIDA_HEAD}]
+
+
+BENIGN.append({"name": "kida-laws-as-class-templates", "edits": _kida_templates("zeta")})
+MUTANTS.append({"name": "kida-class-template-wrong-symbol", "edits": _kida_templates("zeta * Av"), "rules": ["R3"]})
